@@ -96,3 +96,19 @@ func (t *Tape) Range(lo, hi int, label string) int {
 func (t *Tape) Pick(n int, label string) int {
 	return t.Draw(n, label)
 }
+
+// DrawOr is Draw whose search-mode value is supplied by the caller (enumerated
+// dimensions such as a scenario index); in replay mode the recorded value is used.
+func (t *Tape) DrawOr(n int, label string, search func() int) int {
+	if n <= 1 {
+		return 0
+	}
+	if t.isRep {
+		return t.Draw(n, label)
+	}
+	v := search() % n
+	if t.keep {
+		t.Rec = append(t.Rec, Entry{V: v, N: n, Label: label})
+	}
+	return v
+}
